@@ -350,9 +350,21 @@ func (w *WAL) mutateStateLocked(tx stateTxn) error {
 // data within it will be performed to free old files that may have been
 // truncated concurrently.
 func (w *WAL) acquireState() (*state, func()) {
-	s := w.loadState()
-	verifPoint("acquireState.loaded")
-	return s, s.acquire()
+	for {
+		s := w.loadState()
+		verifPoint("acquireState.loaded")
+		release := s.acquire()
+		if w.loadState() == s {
+			// Still the active state now that we hold a reference, so its finalizer
+			// can't have been set yet and won't run until we release.
+			return s, release
+		}
+		// A writer (or Close) replaced the state between our load and our acquire.
+		// Its finalizer may already have run and closed or deleted files that only
+		// the old state refers to, so we must not read through it. Drop it and
+		// start over with the current state.
+		release()
+	}
 }
 
 // newSegment creates a types.SegmentInfo with the passed ID and baseIndex, filling in
